@@ -155,7 +155,10 @@ def do_data(ctx, rng, comps, meta, mexp, content, kind, sinfo_tuple=None, target
          'signer': {k: v for k, v in sinfo.items() if k in ('kind', 'reserve', 'write')}}
     try:
         cform = content if content is None or rng.random() < 0.6 else rng.choice([bytearray, memoryview])(content)
-        before = snap([form, meta, cform])
+        one_shot = fl in pkts.ONE_SHOT_FORMS
+        if one_shot:
+            ctx.event('name-given-as-one-shot-iterable')
+        before = None if one_shot else snap([form, meta, cform])
         if rng.random() < 0.3:
             wire = bytes(make_data(name=form, meta_info=meta, content=cform, signer=signer))
         else:
@@ -164,7 +167,7 @@ def do_data(ctx, rng, comps, meta, mexp, content, kind, sinfo_tuple=None, target
         ctx.report(f'make-data-raises:{type(e).__name__}@{raising_site(e)[0]}', f'make_data raised {e!r}', w)
         return None
     w['wire'] = wire if len(wire) < 600 else wire[:200]
-    if len(wire) < 3000 and sinfo.get('kind') != 'var':
+    if len(wire) < 3000 and sinfo.get('kind') != 'var' and not one_shot:
         again(ctx, 'make-data', w, lambda: make_data(form, meta, cform, signer), wire, before, lambda: snap([form, meta, cform]), kind)
     try:
         p = rc.strict_data(wire)
@@ -240,14 +243,17 @@ def do_interest(ctx, rng, comps, param, pexp, app_param, kind, placeholder_at=No
          'signer': {k: v for k, v in sinfo.items() if k in ('kind', 'reserve', 'write')}, 'placeholder_at': placeholder_at}
     try:
         aform = app_param if app_param is None or rng.random() < 0.6 else rng.choice([bytearray, memoryview])(app_param)
-        before = snap([form, param, aform])
+        one_shot = fl in pkts.ONE_SHOT_FORMS
+        if one_shot:
+            ctx.event('name-given-as-one-shot-iterable')
+        before = None if one_shot else snap([form, param, aform])
         wire, final_name = make_interest(form, param, aform, signer, need_final_name=True)
         wire = bytes(wire)
     except Exception as e:   # noqa
         ctx.report(f'make-interest-raises:{type(e).__name__}@{raising_site(e)[0]}', f'make_interest raised {e!r}', w)
         return None
     w['wire'] = wire if len(wire) < 600 else wire[:200]
-    if len(wire) < 3000 and sinfo.get('kind') != 'var' and not (kind in ('digest-int', 'hmac', 'ed25519') and signer is not None and sinfo.get('for_interest_time')):
+    if len(wire) < 3000 and sinfo.get('kind') != 'var' and not one_shot and not (kind in ('digest-int', 'hmac', 'ed25519') and signer is not None and sinfo.get('for_interest_time')):
         again(ctx, 'make-interest', w, lambda: make_interest(form, param, aform, signer), wire, before, lambda: snap([form, param, aform]), kind)
     try:
         p = rc.strict_interest(wire)
@@ -458,6 +464,7 @@ def run(ctx):
         ctx.event('nested-length-sweep')
 
     # ---- random product
+    reuse = {}
     for i in range(n):
         kind = rng.choice(kinds)
         if kind == 'rsa' and rng.random() < 0.6:
@@ -467,12 +474,24 @@ def run(ctx):
             L = rng.randint(0, 600)
         if rng.random() < 0.5:
             comps = gen.name(rng, 0, 8, gen.COMP_TYPES)
-            meta, mexp = pkts.gen_meta_info(rng)
+            if reuse.get('meta') is not None and rng.random() < 0.3:
+                # the producer's MetaInfo object of an earlier packet, some fields changed since
+                meta, mexp = pkts.mutate_meta(rng, *reuse['meta'])
+                ctx.event('argument-object-reused-and-modified')
+            else:
+                meta, mexp = pkts.gen_meta_info(rng)
+            if meta is not None:
+                reuse['meta'] = (meta, mexp)
             content = None if rng.random() < 0.1 else gen.rand_bytes(rng, L)
             do_data(ctx, rng, comps, meta, mexp, content, kind)
         else:
             comps = gen.name(rng, 0, 8, no_digest_types)
-            prm, pexp = pkts.gen_interest_param(rng)
+            if reuse.get('param') is not None and rng.random() < 0.3:
+                prm, pexp = pkts.mutate_interest_param(rng, *reuse['param'])
+                ctx.event('argument-object-reused-and-modified')
+            else:
+                prm, pexp = pkts.gen_interest_param(rng)
+            reuse['param'] = (prm, pexp)
             app = None if rng.random() < 0.3 else gen.rand_bytes(rng, L)
             if kind == 'digest':
                 kind = 'digest-int' if rng.random() < 0.5 else 'digest'
@@ -481,6 +500,7 @@ def run(ctx):
     for k in ('shrink_length.narrower', 'shrink_length.same-width', 'calculate_signature.shrunk',
               'calculate_signature.exact', 'TlvModel.encode.top'):
         ctx.require_reach(k)
-    ctx.need_event('parsed-without-tl')
+    for k in ('parsed-without-tl', 'name-given-as-one-shot-iterable', 'argument-object-reused-and-modified', 'encoded-twice'):
+        ctx.need_event(k)
     ctx.assumptions = ['refcodec transcription of NDN packet format 0.3', 'BoolField False == absent; absent lifetime parses as None',
                        'make_data(meta_info=None) parses back as a default MetaInfo (not compared)']
